@@ -3,8 +3,10 @@
    identifiers [l] of the log in log order (oldest first); [list_events es ...] is ListEvents of
    a store holding the entries [es]. *)
 From Coq Require Import List NArith Bool Arith.
-From Wesh Require Import Model.MetaLog Proofs.MetaLog Model.C13_Listing Proofs.C13_Listing.
+From Coq Require Import String.
+From Wesh Require Import Model.MetaLog Proofs.MetaLog Model.C13_Listing Proofs.C13_Listing Gen.Index GenFacts.IndexFacts.
 Import ListNotations.
+Open Scope list_scope.
 Open Scope nat_scope.
 
 (* since and until known, since not after until: exactly the contiguous range, inclusive *)
@@ -64,6 +66,13 @@ Theorem C13_check_params_spec :
     ~ (c = false /\ d = false /\ e = true).
 Proof. exact check_params_spec. Qed.
 
+(* both ListEvents hand getEntriesInRange the entries in the total log order (generated facts) *)
+Theorem C13_source_order :
+  (list_events_sources = ["sortedLogEntries(m.OpLog())"; "sortedLogEntries(m.OpLog())"] /\
+   sorted_entries_order = "sorting.SortByEntryHash, entries, false")%string.
+Proof. exact (conj listings_read_the_log_order (proj1 (proj2 index_reads_the_log_order))). Qed.
+
+Print Assumptions C13_source_order.
 Print Assumptions C13_range_exact.
 Print Assumptions C13_range_single.
 Print Assumptions C13_range_since_only.
